@@ -15,6 +15,16 @@ check-file request is served the handle may legitimately hand out FEWER bytes th
 of offset and length) short by a random or a tiny amount.  A short read always returns >= 1 byte, an empty read still
 means end of file.  The oracle does not change: the digests are hashlib over the real bytes.
 
+Read-error plan (round 4; sftpenv fault plan, ("bad", position, action) | ("from", position, action)): SFTPHandle.read is documented
+to return "the bytes read, or an error code": while a check-file request is served, a read that covers byte `position` of the file
+(a bad sector) - or any read reaching at or beyond it (the rest of the file is unreadable: dropped mount, revoked permission) - fails,
+either by returning an SFTP error code (NO_SUCH_FILE, PERMISSION_DENIED, FAILURE, OP_UNSUPPORTED) or by raising OSError (EIO, EACCES).
+The position is generated relative to the file (fraction / absolute / near the end), so it falls before, inside and after the
+requested ranges.  Oracle clause: when the unreadable position lies INSIDE the requested range the hashes of the range cannot be
+computed - the reply must be an error (or, for a server that somehow got at the bytes, exactly the right digests); digests of a
+readable prefix, fewer digests than blocks or an empty digest string are wrong answers.  When the position lies outside the range a
+correct server never touches it and the ordinary oracle applies unchanged (an error reply is then a violation as before).
+
 Oracle (hashlib over the very bytes the served file holds at the moment of the query: the harness keeps a
 model of the file - initial bytes, emptied by a w+ open, patched by every write it issues; SFTPFile.write on an
 unbuffered, non-pipelined file has reached the server when it returns, flush() is called all the same - and
@@ -27,8 +37,13 @@ the model is compared with the file on disk at the end of the case; what read() 
     long (in particular for a length >= 256 that runs past EOF, however few bytes are left before EOF).  When the segment is
     shorter than 256 bytes the block size is below 256 and any reply is accepted (counted: the server refuses these with
     "Block size too small", also check(alg) with all defaults on a file shorter than 256 bytes);
-  * H = the requested algorithm; for a list any *supported* member is accepted (which one the server
-    prefers is not part of the statement), unsupported names in the list are skipped;
+  * H = "the requested hash".  The algorithm field of the check-file extension is a comma separated list in the client's order of
+    preference and the extension (draft-ietf-secsh-filexfer-extensions, "check-file") defines which hash such a request asks for:
+    "the server MUST pick the first hash on the list that it supports".  SFTPFile.check() hands its `hash_algorithm` string through
+    as that list and returns the digests only (the algorithm name in the reply is dropped), so its caller can interpret the result
+    only under that rule.  Round 4 therefore judges lists by it: H = the FIRST supported name on the list (unsupported names before
+    it are skipped); digests of a later listed algorithm are reported as digest|later-listed-algorithm-used.  Lists of 2-4 names
+    with 1-2 supported ones in every order, unsupported names before / between / after, and a repeated name are generated;
   * empty range (offset at/after EOF): an empty digest string or an error reply are both accepted -
     but there must be a reply;
   * "answers promptly": decided without a clock.  The served handle counts the server's reads for the
@@ -59,15 +74,18 @@ RULE = (
     "offsets also relative to the handle's past (end position of its k-th last request +-d, current position) and to the current size; "
     "short-read plan for the served handle while a check-file request is served (none | at most k bytes per read, k in 256..65535 | every "
     "m-th read, by hash of (offset, length), returns a random or a tiny part of what is available - never 0 bytes before EOF); "
-    "queries via SFTPFile.check: algorithm in {md5, sha1, lists with both orders and an "
-    "unsupported name}, offset/length from {0,1,255,256,257,65535,65536,65537,131072,size-1,size,size+1, size-600..size+2, random, 2^40}, block size >= 256 from "
+    "read-error plan for the served handle while a check-file request is served (none | reads covering one generated byte position fail | "
+    "every read reaching at or beyond a generated position fails; by SFTP error code or by OSError; position before / inside / after the "
+    "requested range - inside: the reply must be an error, never digests of the readable part); "
+    "queries via SFTPFile.check: algorithm in {md5, sha1, lists of 2-4 names with both supported ones in either order and "
+    "unsupported names before / between / after them: the first supported name on the list is the requested hash}, offset/length from {0,1,255,256,257,65535,65536,65537,131072,size-1,size,size+1, size-600..size+2, random, 2^40}, block size >= 256 from "
     "{256,257,512,4096,65535,65536,65537,131072,size,size+1,random} or 0 (= one block: the requested segment; judged when that segment is >= 256 bytes, "
     "with lengths inside the file, zero and past EOF, also with fewer than 256 bytes left before EOF); oracle = hashlib per block over the bytes the file holds at that moment "
     "(model = initial bytes + the writes issued; checked against the disk at the end), range clipped at EOF when "
     "length is 0 or runs past it; promptness = server read-count/livelock guard. non-trivial = some block of the range is longer than 65536 bytes "
     "(spans the server's read chunk) or the requested length runs past EOF or there are >= 2 blocks with a partial last one, or a non-empty range is "
     "hashed on a handle that has already served a read/write or after the file was modified, or the served handle returned a short read "
-    "before EOF while a non-empty range was hashed; distinct by SHA-1 of the case"
+    "before EOF while a non-empty range was hashed, or a read inside the hashed range failed; distinct by SHA-1 of the case"
 )
 THOROUGH_WORKERS = 16
 
@@ -83,7 +101,10 @@ _file_sizes = st.one_of(
     st.integers(65537, 409600),
     st.integers(0, 3000),
 )
-_algs = st.sampled_from(["md5", "sha1", "md5", "sha1", "md5,sha1", "sha1,md5", "sha256,md5", "bogus,sha1", "sha1,bogus"])
+_algs = st.sampled_from(
+    ["md5", "sha1", "md5", "sha1", "md5", "sha1", "md5,sha1", "sha1,md5", "sha256,md5", "bogus,sha1", "sha1,bogus"]
+    + ["md5,sha1", "sha1,md5", "sha256,md5,sha1", "crc32,sha1,md5", "md5,sha256,sha1", "sha1,sha512,md5", "sha1,md5,bogus", "md5,md5,sha1", "sha256,sha1,crc32,md5"]
+)
 
 # numbers are generated relative to the file size where that is interesting: ("abs", n) | ("size", delta) | ("frac", per-mille)
 _num = st.one_of(
@@ -161,8 +182,26 @@ _short_plan = st.one_of(
     st.tuples(st.just("hash"), st.sampled_from([3, 5, 10]), st.integers(0, 1000), st.just(True)),
 )
 _short = st.one_of(*([st.none()] + _w(st.none(), 2) + _w(_short_plan, 2)))
+# read-error plan of the served handle (applies while a check-file request is served): None | (kind, position spec, action)
+#   kind "bad": a read that covers the byte at `position` fails; kind "from": every read reaching at or beyond `position` fails
+#   position spec: ("frac", per-mille of the current file size) | ("abs", n) | ("size", -k)   (clipped to the last byte of the file)
+#   action: ("error", SFTP error code) | ("raise", errno)
+_fault_pos = st.one_of(
+    st.tuples(st.just("frac"), st.integers(0, 999)),
+    st.tuples(st.just("frac"), st.integers(300, 999)),
+    st.tuples(st.just("abs"), st.sampled_from([0, 1, 255, 256, 65535, 65536, 65537, 131072])),
+    st.tuples(st.just("abs"), st.integers(0, 3000)),
+    st.tuples(st.just("size"), st.sampled_from([-1, -2, -255, -256, -257, -1000, -65536, -65537])),
+)
+_fault_act = st.one_of(
+    st.tuples(st.just("error"), st.sampled_from([4, 4, 3, 8, 2])),  # FAILURE PERMISSION_DENIED OP_UNSUPPORTED NO_SUCH_FILE
+    st.tuples(st.just("error"), st.sampled_from([4, 3])),
+    st.tuples(st.just("raise"), st.sampled_from([5, 13])),  # EIO EACCES
+)
+_fault_plan = st.tuples(st.sampled_from(["bad", "bad", "from"]), _fault_pos, _fault_act)
+_fault = st.one_of(*(_w(st.none(), 3) + _w(_fault_plan, 1)))
 _plain_case = st.fixed_dictionaries(
-    {"size": _file_sizes, "seed": st.integers(0, 255), "mode": st.just("r"), "short": _short, "ops": st.lists(_query.map(lambda q: ("check", 0) + tuple(q)), min_size=1, max_size=4)}
+    {"size": _file_sizes, "seed": st.integers(0, 255), "mode": st.just("r"), "short": _short, "fault": _fault, "ops": st.lists(_query.map(lambda q: ("check", 0) + tuple(q)), min_size=1, max_size=4)}
 )
 _history_case = st.fixed_dictionaries(
     {
@@ -170,6 +209,7 @@ _history_case = st.fixed_dictionaries(
         "seed": st.integers(0, 255),
         "mode": st.sampled_from(["r", "r+", "r+", "r+", "r+", "w+"]),
         "short": _short,
+        "fault": _fault,
         "ops": st.lists(_hop, min_size=4, max_size=10),
     }
 )
@@ -211,12 +251,14 @@ def _blocks(size, o, l, b):
 
 
 class ReadGuard:
-    """Read accounting + livelock guard + the case's short-read plan (active while a check-file request is served)."""
+    """Read accounting + livelock guard + the case's short-read and read-error plans (active while a check-file request is served)."""
 
     def __init__(self, size, short=None):
         self.size = size
         self.kill = False
         self.short = short
+        self.fault = None  # (kind, absolute position, action) for the request being served, see execute()
+        self.n_fault = 0  # reads that failed by plan since begin()
         self.n_short = 0  # short reads (before EOF) handed out since begin()
         self.last_short = 0  # ... while the most recent check-file request was served
         self.begin(0)
@@ -228,6 +270,7 @@ class ReadGuard:
         self.aborted = None
         self.checking = checking
         self.n_short = 0
+        self.n_fault = 0
 
     def _short(self, offset, length):
         sp = self.short
@@ -265,7 +308,16 @@ class ReadGuard:
             if self.aborted is None:
                 self.aborted = why
             raise sftpenv.HarnessAbortLoop(why)
-        return self._short(offset, length)
+        act = self._short(offset, length)
+        if self.fault is not None and self.checking and length > 0:
+            kind, pos, fact = self.fault
+            n = min(length, act[1]) if act is not None else length  # what this read would hand out at most
+            if (offset <= pos < offset + n) if kind == "bad" else (offset + n > pos):
+                if act is not None:
+                    self.n_short -= 1
+                self.n_fault += 1
+                return fact
+        return act
 
 
 # ----------------------------------------------------------------------------- execution
@@ -300,7 +352,7 @@ def _server_stack(env):
     return "\n".join(out)
 
 
-def _one_query(ctx, jcase, env, guard, fh, content, q, qi, hsuffix="", hwhere="", b_sent=None):
+def _one_query(ctx, jcase, env, guard, fh, content, q, qi, hsuffix="", hwhere="", b_sent=None, fault_in_range=False):
     """Returns 'ok' | 'known' | 'dead' (session unusable) | 'late' (backstop hit; caller re-tries).
     ``hsuffix``: root-cause refinement of digest buckets for queries on a handle with a history.
     ``b_sent``: the block size put on the wire when it differs from the effective one in ``q`` (0 = "the whole segment")."""
@@ -327,6 +379,14 @@ def _one_query(ctx, jcase, env, guard, fh, content, q, qi, hsuffix="", hwhere=""
     elapsed = time.time() - t0
     n_short = guard.last_short = guard.n_short
     guard.checking = False
+    if guard.fault is not None:
+        hwhere += " [read-error plan: %s position %d fails with %r - %s the requested range; %d reads failed]" % (
+            guard.fault[0],
+            guard.fault[1],
+            guard.fault[2],
+            "INSIDE" if fault_in_range else "outside",
+            guard.n_fault,
+        )
     if n_short:
         hsuffix += ":short-reads"
         hwhere += " [served handle returned %d short reads before EOF, plan %r]" % (n_short, guard.short)
@@ -362,15 +422,25 @@ def _one_query(ctx, jcase, env, guard, fh, content, q, qi, hsuffix="", hwhere=""
     names = [a for a in algs.split(",") if a in SUPPORTED]
     if not names:
         raise AssertionError("generator produced no supported algorithm")
+    if fault_in_range:
+        # the range holds a position that cannot be read: its hashes cannot be computed
+        hsuffix += ":read-error-in-range"
+        if exc is not None:
+            ctx.count("read-error-in-range:error-reply")
+            return "ok"
     if exc is not None:
         text = str(exc)
         return "known" if ctx.violation("error-reply", (text[:40] or type(exc).__name__) + hsuffix, jcase, "%s: %r" % (where, exc)) else "ok"
     exps = {a: b"".join(SUPPORTED[a](content[p:q]).digest() for p, q in blocks) for a in names}
-    if got in exps.values():
-        if len(names) > 1 and got != exps[names[0]]:
-            ctx.count("server-preferred-a-later-algorithm")
+    exp = exps[names[0]]  # the requested hash = the first supported name on the client's list
+    if got == exp:
+        if fault_in_range:
+            ctx.count("read-error-in-range:right-digests-all-the-same")
         return "ok"
-    exp = exps[names[0]]
+    if got in exps.values():
+        used = [a for a in names if exps[a] == got][0]
+        detail = "%s: the reply holds the %s digests of the range; the first supported name on the list is %s" % (where, used, names[0])
+        return "known" if ctx.violation("digest", "later-listed-algorithm-used" + hsuffix, jcase, detail) else "ok"
     dlen = SUPPORTED[names[0]]().digest_size
     longest = max(q - p for p, q in blocks)
     if longest > _KB64:
@@ -424,6 +494,12 @@ def _classify_query(classes, size, o, l, b, algs):
         classes.add("multi-block")
     if "," in algs:
         classes.add("alg-list")
+        names = algs.split(",")
+        sup = [a for a in names if a in SUPPORTED]
+        if len(set(sup)) > 1:
+            classes.add("alg-list:two-supported:first=" + sup[0])
+        if names[0] not in SUPPORTED:
+            classes.add("alg-list:unsupported-name-first")
     return nt, blocks
 
 
@@ -452,6 +528,9 @@ def execute(ctx, case, _retry=0):
     short = _jsonable(case.get("short"))
     if short is not None:  # (cases of earlier generations of this check carry no plan)
         jcase["short"] = short
+    fault = _jsonable(case.get("fault"))
+    if fault is not None:
+        jcase["fault"] = fault
 
     model = bytearray(_content(seed, size))
     nontrivial = False
@@ -467,6 +546,7 @@ def execute(ctx, case, _retry=0):
         f.write(model)
     guard = ReadGuard(size, short)
     classes.add("short-plan:" + ("none" if short is None else short[0] + (":tiny" if short[0] == "hash" and short[3] else "")))
+    classes.add("read-error-plan:" + ("none" if fault is None else "%s:%s" % (fault[0], "raises-OSError" if fault[2][0] == "raise" else "error-code-%d" % fault[2][1])))
     # unbuffered server-side files: a handle must see what was written through another handle
     env = sftpenv.SftpEnv(root, fault_plan=guard, loop_limit=10**12, handle_buffering=0)
     late = None
@@ -580,7 +660,23 @@ def execute(ctx, case, _retry=0):
                     nontrivial = True
                 hsuffix = ":after(%s)%s%s" % (";".join(kinds[-2:]) or "-", "@previous-end" if o in ends else "", ",file-modified" if modified else "")
                 hwhere = " [mode %s, handle %d; %s]" % (mode, h, ", ".join(trace[-6:]))
-            r = _one_query(ctx, jcase, env, guard, hs.fh, bytes(model), (algs, o, l, b), qi, hsuffix, hwhere, b_sent)
+            # read-error plan: where the unreadable position lies at this moment, and whether the requested range holds it
+            fault_in_range = False
+            guard.fault = None
+            if fault is not None and cur > 0:
+                fpos = min(cur - 1, _resolve(tuple(fault[1]), cur))
+                guard.fault = (fault[0], fpos, tuple(fault[2]))
+                if blocks:
+                    end = blocks[-1][1]
+                    fault_in_range = (o <= fpos < end) if fault[0] == "bad" else (end > fpos)
+                if fault_in_range:
+                    classes.add("check:read-error-inside-range")
+                    classes.add("check:read-error-inside-range:" + ("first-block" if fpos < blocks[0][1] else ("last-block" if fpos >= blocks[-1][0] else "middle-block")))
+                    nontrivial = True
+                else:
+                    classes.add("check:read-error-position-%s-range" % ("outside-empty" if not blocks else ("before" if fpos < o else "after")))
+            r = _one_query(ctx, jcase, env, guard, hs.fh, bytes(model), (algs, o, l, b), qi, hsuffix, hwhere, b_sent, fault_in_range)
+            guard.fault = None
             trace.append("h%d.check(%d,%d,%d)" % (h, o, l, b))
             qi += 1
             if blocks:
